@@ -20,3 +20,13 @@ claim('C14',
       'not decided.',
       'Trusted: ast parser; accepted forms enumerated in dsa/rules/c14.py. Numerical values not decided.',
       'DESIGN.md 4 C14')
+claim('C17',
+      'schema-vs-converter coverage (access-path resolution), purity/once rules, exact rational affine composition of converter pairs',
+      'Static conformance to the structural necessary conditions of C17 in DESIGN 4.17: every schema key classified as '
+      'length/temperature/mass-flow is the target of exactly one store P = conv(P) of the right kind and direction; converters '
+      'make no other store into the input; convert_units runs once after all raw-value checks; every _x_to_y/_y_to_x pair '
+      'composes to the identity as exact rational affine maps and equals an independent reference; dispatchers return the '
+      'member matching their branch. Exhaustive over all 125 schema keys and 22 converter functions; an unclassified new key '
+      'is an analysis error. Does not decide equality of meshes/temperatures.',
+      'Trusted: the frozen classification of schema keys and reference conversion constants in dsa/rules/c17.py.',
+      'DESIGN.md 4 C17')
